@@ -612,6 +612,28 @@ func genCorpus() {
 			"// EqDecimal compares the decimal form of xs with ys.\n//\n// The argument of the outer call is itself a derive call: it is registered in the second round.\n//\n//go:noinline\nfunc EqDecimal(xs []int, ys []string) bool {\n\t// this call clashes and is renamed in the second round\n\treturn " + call + " // trailing remark two\n}\n\n" +
 			"/* a block comment between declarations */\n\n// Tail is declared after the renamed call.\nfunc Tail() string {\n\treturn \"tail\" // the end\n}\n\n// a comment at the very end of the file\n"
 	}
+	// one file with a call renamed in the FIRST pass and a call renamed in a LATER pass (the file is written twice)
+	{
+		src := "// Package PKG: shapes.\npackage PKG\n\ntype Circle struct{ R int }\n\ntype Square struct{ Side *int }\n\nfunc sameCircle(x, y *Circle) bool { return deriveEqual(x, y) } // keeps its name\n\n" +
+			"// the same name for another type: renamed in the first pass\nfunc sameSquare(x, y *Square) bool { return deriveEqual(x, y) } // first pass\n\n" +
+			"// the arguments have a type only after deriveSort and deriveKeys exist: renamed in a later pass\nfunc sameNames(byName map[string]*Circle, names []string) bool {\n\treturn deriveEqual(deriveSort(deriveKeys(byName)), names) // later pass\n}\n"
+		dupSrc := strings.Replace(strings.Replace(src, "func sameSquare(x, y *Square) bool { return deriveEqual(x, y) }", "func sameSquare(x, y *Circle) bool { return deriveEqualAgain(x, y) }", 1),
+			"return deriveEqual(deriveSort(deriveKeys(byName)), names)", "return deriveEqualStrs(deriveSort(deriveKeys(byName)), names) && deriveEqualStrings(names, names)", 1)
+		for _, v := range []struct{ what, s, flags, length string }{
+			{"first-pass and later-pass conflict in one file", src, "autoname", "longer"},
+			{"first-pass and later-pass duplicate in one file", dupSrc, "dedup", "shorter"},
+		} {
+			for _, un := range []bool{false, true} {
+				txt := v.s
+				if un {
+					txt = uglify(r, txt)
+				}
+				files := map[string]string{"shapes.go": txt, "other.go": "package PKG\n\n// Other holds no call.\nfunc Other() {}\n"}
+				modes := bystanders(files)
+				add(caseT{Kind: "rename", What: v.what + map[bool]string{true: ", unformatted", false: ""}[un], Renames: v.flags, Length: v.length, Gofmt: !un}, files, modes)
+			}
+		}
+	}
 	for _, sr := range []struct{ what, call, flags, length string }{
 		{"second-round conflict (deriveEqual for []int and, after deriveFmap exists, for []string)", "deriveEqual(deriveFmap(strconv.Itoa, xs), ys)", "autoname", "longer"},
 		{"second-round duplicate (a second name for []string, known only after deriveFmap exists)", "deriveEqualOfDecimals(deriveFmap(strconv.Itoa, xs), ys)", "dedup", "shorter"},
